@@ -225,7 +225,11 @@ func (l c12Logger) Error(msg string, err error, f watermill.LogFields) {
 	if err != nil && err == c.lastErr {
 		errOK = 1
 	}
-	c.Trace = append(c.Trace, []int64{1, int64(n), int64(d), int64(mr), errOK})
+	errID := int64(999) // identity of the error handed to the logger
+	if id, ok := c.errs[err]; ok {
+		errID = id
+	}
+	c.Trace = append(c.Trace, []int64{1, int64(n), int64(d), int64(mr), errOK, errID})
 	c.mu.Unlock()
 }
 func (l c12Logger) Info(string, watermill.LogFields)                 {}
